@@ -267,5 +267,18 @@ UsableIsSpendable == LET L == LedgerOf(best) IN
 WalUsableIsSpendable == LET L == LedgerOf(best) IN
   \A w \in wal : (w.vh <= Abs(best)) => Spendable(L, w.coin, Abs(best) + 1)
 
+(* C25 with the unconfirmed view (account/utxo_keeper.go findUtxos / findUtxo with useUnconfirmed). The wallet is told   *)
+(* about pool transactions and, later, that they left the pool; the second message may lag behind the block that mined   *)
+(* the transaction (or the transaction went back to the pool in a reorganisation and was mined again). So any set of      *)
+(* transactions the node has seen in stored blocks may still be listed as unconfirmed. The listing carries valid heights  *)
+(* computed without a block height; it must never make a *confirmed* wallet output look usable before consensus lets it   *)
+(* be spent: the confirmed record decides. Outputs known only from the listing are outside the property.                  *)
+Listable == UNION {{TxsOf(b)[i] : i \in 1..Len(TxsOf(b))} : b \in stored}
+UncCoins(unc) == UNION {OwnedOuts[t] : t \in unc}
+Offered(unc) == LET S == WalletScan(best) IN
+  {u.coin : u \in {x \in S : Usable(x, Abs(best))}} \cup (UncCoins(unc) \ {u.coin : u \in S})
+UnconfirmedViewIsSafe == LET L == LedgerOf(best) S == {u.coin : u \in WalletScanL(L)} IN
+  \A unc \in SUBSET Listable : \A c \in Offered(unc) \cap S : Spendable(L, c, Abs(best) + 1)
+
 View == <<blk, byh, phase, nplace, stored, orphans, best, mainIdx, ncalls, wal>>
 =============================================================================
